@@ -319,15 +319,19 @@ def init_obligations(ctx: Ctx, I: Interp) -> None:
     _delegates(ctx, I, "append", cls="HTMLDocument", mod=CORE, kind="HTMLDOC", field="_content", rule="C11.R2")
 
 
-def _exactly_one(atoms: Any) -> bool:
-    """Some collection's count decisions on this path cover every node kind and add up to exactly one element."""
+def _exactly_one(atoms: Any, base: Any = None) -> bool:
+    """The count decisions of a collection on this path cover every node kind and add up to exactly one element; with `base`,
+    the collection has to be that one (the list the sole element was taken from)."""
     by: Dict[Any, List[Tuple[Any, str]]] = {}
+    buid = getattr(base, "uid", None)
     for a, lab in atoms:
         if isinstance(a, tuple) and a[0] == "count":
             by.setdefault(a[1], []).append((frozenset(a[2]), str(lab)))
-        if isinstance(a, tuple) and a[0] == "len-cmp" and a[2] == "==" and a[3] == 1 and lab is True:
+        if isinstance(a, tuple) and a[0] == "len-cmp" and a[2] == "==" and a[3] == 1 and lab is True and (buid is None or a[1] == buid):
             return True
     for uid, groups in by.items():
+        if buid is not None and uid != buid:
+            continue
         cov = frozenset().union(*[g for g, _ in groups])
         if not (frozenset(NODE_KINDS) - {"TAGLIST"} <= cov):   # a TagList never holds a TagList (flattened)
             continue
@@ -375,7 +379,11 @@ def case_table(ctx: Ctx, I: Interp) -> None:
                   f"{[short(x) for x in hargs[1:]]} instead of the caller's lib_prefix and include_version: dependency URLs ignore the requested setting",
                   witness="HTMLDocument(tags.html(dep)).render(include_version=False)")
         if is_html or is_body:
-            ctx.check(_exactly_one(l.atoms), "C11.R2", f"the sole-<{'html' if is_html else 'body'}> case is taken only when the content is exactly that one element", GEN,
+            # the list the sole element is taken from (content[0] of the expanded content)
+            el_tree = tree if is_html else (tree.args[2] if isinstance(tree, SNew) and len(tree.args) == 3 else None)
+            el = (_call_of(el_tree) or {}).get("recv") if el_tree is not None else None
+            base = el.elem_of[0] if isinstance(el, SObj) and el.elem_of is not None else None
+            ctx.check(_exactly_one(l.atoms, base), "C11.R2", f"the sole-<{'html' if is_html else 'body'}> case is taken only when the content is exactly that one element", GEN,
                       f"case {'html' if is_html else 'body'} under {[str(lbl) for _, lbl in l.atoms][:4]}",
                       f"the sole-<{'html' if is_html else 'body'}> case is chosen on a path that does not establish that the content has exactly one element "
                       f"(conditions {[str(lbl) for _, lbl in l.atoms][:4]}): siblings of that tag (dependencies, head_content(), text) are dropped from the document",
@@ -787,6 +795,9 @@ def check(ctx: Ctx) -> None:
     I = Interp(ctx.prog)
     init_obligations(ctx, I)
     render_obligations(ctx, I)
+    # "for any html attributes": the keyword arguments of HTMLDocument go through the attribute value rules of the <html> tag
+    from .c03 import value_table_obligations
+    value_table_obligations(ctx, "C11")
     case_table(ctx, I)
     hoist_obligations(ctx, I)
     # "every resolved dependency": the collection the hoisting starts from (rules C10.collect / C10.dedup, shared with C10)
